@@ -14,14 +14,14 @@ SPEC = {
         'dense inside EncryptWallet (incl. the rewrite of the file)',
     ],
     'stages': [
-        gen('vh_c42', 'c42_encrypt', 192, 4000, min_cases_quick=32, max_seconds_quick=600,
+        gen('vh_c42', 'c42_encrypt', 192, 4000, min_cases_quick=32, max_seconds_quick=300,
             floors={'passphrase-changed': 0.08, 'reloaded': 0.08, 'imported-keys': 0.3, 'born-encrypted-keys-scanned': 0.5},
             rule='wallet + imports + passphrase from the case bytes, EncryptWallet, 0-10 ops; non-trivial = >=1 wrong and >=1 right unlock + (passphrase change, mid-history reload or import while encrypted); distinct = configuration + op sequence'),
-        gen('vh_c42', 'c42_journal_residue', 48, 640, min_cases_quick=16, max_seconds_quick=300,
+        gen('vh_c42', 'c42_journal_residue', 48, 640, min_cases_quick=16, max_seconds_quick=150,
             rule='scan of the open rollback journal right after EncryptWallet returned; every case is non-trivial'),
         custom('bin/crashsim/c42_worker.py', 96, 3200, name='c42_crash_images', needs=[('san', 'vh_c42')],
                min_cases_quick=8, floors={'in-op:encrypt': 0.3, 'image-loaded': 0.5},
-               hard_timeout_quick=2400, max_seconds_quick=420, max_seconds_thorough=5400,
+               hard_timeout_quick=2400, max_seconds_quick=300, max_seconds_thorough=5400,
                rule='1 recorded encryption workload per worker (6 in thorough); two thirds of the cuts inside EncryptWallet; kill + power-loss images; oracle: no mix of plain and '
                     'encrypted key rows, encryption and descriptor-setup groups entirely before/after, image loads, encrypted => locked + a workload passphrase unlocks, '
                     'signatures verify for the original scripts, no secret in wallet.dat once EncryptWallet had returned; non-trivial = group judged or image scanned; '
